@@ -58,6 +58,7 @@ import PyhamModel.Lemmas.Interleave
 import PyhamModel.Lemmas.LeafProfile
 import PyhamModel.Lemmas.SaxSim
 import PyhamModel.Lemmas.Chaining
+import PyhamModel.Lemmas.GainedCount
 import PyhamModel.Lemmas.LateSpecies
 namespace Pyham.Props
 open Pyham
@@ -280,6 +281,23 @@ theorem C06_on_loaded_consistent_input (D : Dataset) (hc : D.Consistent) :
 theorem C06_gained_iff_family_younger (H : Ham) (hw : H.WFc) (a d : Taxon) (had : a <:+ d) (hne : a ≠ d) (n : Node) :
     n ∈ (hogsMap H a d).gain ↔ ∃ r ∈ H.nodesAt d, r.node = n ∧ ¬ (r.rootTx <:+ a) :=
   Pyham.C06_gained_iff_family_younger H hw a d had hne n
+
+/-- **how many genes are gained over any branch** (not only a branch of length one), on the hierarchy: the members of `d`
+    that belong to families rooted strictly below `a`, plus the singletons of `d` -/
+theorem C06_gained_count (H : Ham) (hw : H.WFc) (a d : Taxon) (had : a <:+ d) (hne : a ≠ d) :
+    (hogsMap H a d).gain.length =
+      famSum H (fun top => if top.tx.isSuffixOf a then 0 else ((locs [] top).filter fun l => l.node.tx == d).length) +
+      (singletonsAt H d).length :=
+  Pyham.C06_gained_count H hw a d had hne
+
+/-- ... END TO END, on the histories: for every consistent dataset and every ancestral node `d` below `a`, the comparison
+    `a → d` reports as many gained genes as the histories of the families that start strictly below `a` have lineages
+    crossing `d` -/
+theorem C06_gained_count_is_the_history (D : Dataset) (hc : D.Consistent) :
+    ∃ H, load D.T D.nm D.file = .ok H ∧ ∀ a d, a <:+ d → a ≠ d → D.T.isInternalAt d = true →
+      (hogsMap H a d).gain.length =
+        (D.fams.map fun f => if f.1.isSuffixOf a then 0 else lineagesAt d f.1 f.2).sum :=
+  Pyham.C06_gained_count_is_the_history D hc
 
 /-- `Loc.rootTx` is the taxon of the outermost ancestor (the top-level HOG), or of the member itself when it has none -/
 theorem C06_rootTx_is_top (H : Ham) (hw : H.WFc) (r : Loc) (hr : r ∈ H.allLocs) :
